@@ -22,7 +22,11 @@ pub fn line(l: &str) -> String {
             let path = if module { Some(tsrun::ModulePath::resolve("/m/main", None)) } else { None };
             match interp.prepare(&src, path) {
                 Ok(_) => "ACC".to_string(),
-                Err(e) => format!("REJ {}", crate::prog::error_class(&e)),
+                Err(e) => {
+                    let msg = format!("{}", e);
+                    let tag = if msg.contains("chain is too long") { " tag=chain" } else if msg.contains("nested too deeply") { " tag=depth" } else { "" };
+                    format!("REJ {}{}", crate::prog::error_class(&e), tag)
+                }
             }
         });
         let work = verif_work::get();
